@@ -5,7 +5,7 @@ HERE = os.path.dirname(os.path.abspath(__file__))
 
 CLAIMED = {
  "C06": dict(
-   text="Seeded search over what must not matter to a seeded forest: every run fits the same forest twice — twin A under one simulator-owned ambient RNG stream, then other estimators run (history pollution), then twin B on another OS thread under a different stream (seeded, extreme words, or no simulator source at all) — and a prefix of every batch is re-run in a second OS process. Twins must be byte-identical (bincode), equal under the model's own PartialEq, predict identically, and consume zero ambient words (tape log). Aggregation, out-of-bag aggregation over exactly the trees whose bootstrap mask excludes the row, stratification, range and tree-count are judged on the recorded history (serde image of trees[]/samples[], member trees rebuilt and their real predict called).",
+   text="Seeded search over what must not matter to a seeded forest: every run fits the same forest twice — twin A under one simulator-owned ambient RNG stream, then other estimators run (history pollution), then twin B on another OS thread under a different stream; each twin is driven with a generated call sequence (predict / predict_oob / predict on a same-shape, single-row and stacked matrix, with repetitions) (seeded, extreme words, or no simulator source at all) — and a prefix of every batch is re-run in a second OS process. Twins must be byte-identical (bincode), equal under the model's own PartialEq, predict identically, and consume zero ambient words (tape log). Aggregation, out-of-bag aggregation over exactly the trees whose bootstrap mask excludes the row, stratification, range and tree-count are judged on the recorded history (serde image of trees[]/samples[], member trees rebuilt and their real predict called).",
    design_ref="DESIGN.md 5.4",
    note="Trusts: patched rand 0.8.8 (ThreadRng word source only; StdRng(seed) deliberately untouched), serde/bincode as observation channel. Rows without any out-of-bag tree are not judged. Real: both forests, both trees, StdRng. Stub: ambient ThreadRng entropy.",
    technique="deterministic simulation: twin fits under perturbed ambient RNG / thread / process / history (fault injection around the seed), recorded-history aggregation oracles vs reference plurality/mean model"),
@@ -20,10 +20,10 @@ CLAIMED = {
    note="Trusts: patched rand 0.8.8 (ThreadRng word source only), the add-only cfg(smartcore_verif) probe and bbd_clustering wrapper in /repo/src/verif.rs, f64 exhaustive search as reference with tolerances >=100x the measured worst case (reported in evidence). Real: KMeans fit/predict/kmeans_plus_plus, BBDTree. Stub: ThreadRng entropy.",
    technique="deterministic simulation: seeded PRNG/extreme/forced words behind k-means++ draws, in-run invariant at every Lloyd step vs exhaustive-search reference model, crash containment, replayable tape"),
  "C10": dict(
-   text="Seeded search over the visiting orders the trainer may draw: every thread_rng word behind Optimizer::permutate (initialize + each epoch) is served by the simulator, so a fit is one exactly replayable tuple of permutations out of (n!)^(1+epoch); all order pairs for n<=4 (all initialize orders for n=5) are enumerated, larger n sampled with PRNG / extreme / forced adversarial orders (one class first, reverse, rotations). After each fit the dual box, sum-to-zero, support-vectors-are-training-rows, kernel-expansion (against closed forms computed in the harness) and label-rule oracles are evaluated on the model's serde image; a logical clock (kernel evaluations through the Kernel trait seam + a cfg-guarded tick in the SMO loops) turns termination into a deterministic bounded-liveness check. SVR (draws nothing) and the kernel closed forms / symmetry / PSD clauses ride along as schedule-free configurations, reported separately.",
+   text="Seeded search over the visiting orders the trainer may draw: every thread_rng word behind Optimizer::permutate (initialize + each epoch) is served by the simulator, so a fit is one exactly replayable tuple of permutations out of (n!)^(1+epoch); all order pairs for n<=4 (all initialize orders for n=5) are enumerated, larger n sampled with PRNG / extreme / forced adversarial orders (one class first, reverse, rotations). After each fit the dual box, sum-to-zero, support-vectors-are-training-rows, kernel-expansion (against closed forms computed in the harness) and label-rule oracles are evaluated on the model's serde image; termination is decided deterministically, without a wall clock: a cfg-guarded tick in the SMO loops delivers a digest of the optimizer state on every iteration and Brent cycle detection proves non-termination when a state repeats inside one loop (the loops are deterministic in that state); kernel-evaluation / iteration budgets through the Kernel trait seam remain as a far-away fallback. SVR (draws nothing; regular region plus a small slowly-converging C=100 batch) and the kernel closed forms / symmetry / PSD clauses ride along as schedule-free configurations, reported separately.",
    design_ref="DESIGN.md 5.2",
    note="Trusts: patched rand 0.8.8 (ThreadRng word source only), the Counting<K> wrapper (delegates to the real kernels), the add-only cfg(smartcore_verif) tick hook, closed-form kernels written in the harness. SVR optimality slack = tol + 1e-9*scale (stopping rule guarantees tol/2); SVR workload restricted to the fast-converging region (see evidence assumptions). Real: SVC/SVR optimisers, kernels, predict/decision_function. Stub: ThreadRng entropy, counting kernel wrapper.",
-   technique="deterministic simulation: seeded PRNG owns every permutation SVC visits rows in (exhaustive for n<=4), logical-clock step budget via Kernel trait + tick hook, dual-feasibility/kernel-expansion oracles vs closed-form reference, replayable tape"),
+   technique="deterministic simulation: seeded PRNG owns every permutation SVC visits rows in (exhaustive for n<=4), liveness by state-cycle detection over tick-hook state digests (+ logical-clock fallback budget), dual-feasibility/kernel-expansion oracles vs closed-form reference, replayable tape"),
 }
 
 NOT_APPLICABLE = {
